@@ -13,6 +13,16 @@ import (
 	"berty.tech/go-ipfs-log/io/cbor"
 )
 
+var startCase, onlyCase = 0, -1
+
+// skipCase says whether case index h is excluded by -start / -only.
+func skipCase(h int) bool {
+	if onlyCase >= 0 {
+		return h != onlyCase
+	}
+	return h < startCase
+}
+
 func mustIO() *cbor.IOCbor {
 	io, err := cbor.IO(&entry.Entry{}, &entry.LamportClock{})
 	if err != nil {
@@ -34,6 +44,8 @@ func main() {
 	outPath := fs.String("out", "-", "trace output")
 	statsPath := fs.String("stats", "", "stats json output")
 	thorough := fs.Bool("thorough", false, "wider generators")
+	fs.IntVar(&startCase, "start", 0, "first case index to run")
+	fs.IntVar(&onlyCase, "only", -1, "run only this case index")
 	_ = fs.Parse(os.Args[2:])
 
 	var f *os.File = os.Stdout
@@ -52,6 +64,8 @@ func main() {
 	switch stream {
 	case "core":
 		stats = runCore(*seed, *n, *ops, out, *thorough)
+	case "order":
+		stats = runOrder(*seed, *n, out, *thorough)
 	default:
 		fmt.Fprintln(os.Stderr, "unknown stream", stream)
 		os.Exit(2)
